@@ -939,6 +939,8 @@ func c07FunctionMap(p *Prog, r *Report, funcs map[string]*ssa.Function, pkg stri
 // ---------------- C15 ----------------
 
 func runC15(p *Prog, r *Report) {
+	// R5: the size-limited reader is applied to the request's own body, whatever the method or declared length (shared with C06.R4)
+	r.Borrow(p, runC06, map[string]string{"C06.R4": "C15.R5"}, nil)
 	b := resolveBuf(p, r, "C15.R0")
 	if b == nil {
 		return
@@ -1113,6 +1115,23 @@ func runC15(p *Prog, r *Report) {
 		}
 		r.Check(okRel, "C15.R3", "buffer.(*bufferWriter).Close: takes the reader and closes it (the only way the spill file is removed)", p.FuncPos(closeFn),
 			"Reader() on every path; on its success edge the reader is closed", "the recorder's Close does not obtain and close the WriterOnce's reader: WriterOnce.Close only closes the descriptor, the temporary file stays")
+		if rd != nil && c15ReaderNeedsOpenFile(p) {
+			// derived from the dependency: WriterOnce.Close closes the descriptor that Reader() has to rewind, so a
+			// Reader() issued after Close() fails for a spilled body and the clean-up closure is never obtained
+			early := false
+			var at ssa.Instruction
+			for _, c := range Calls(closeFn) {
+				if cc, ok := IsInvoke(c, "Close"); ok && isFieldLoad(cc.Value, b.rec, "buffer") && Reach(closeFn, c, nil, nil)[rd] {
+					early, at = true, c
+				}
+			}
+			pos := p.InstrPos(rd)
+			if at != nil {
+				pos = p.InstrPos(at)
+			}
+			r.Check(!early, "C15.R3", "buffer.(*bufferWriter).Close: the reader is taken before the writer is closed", pos, "Reader() is not reachable after WriterOnce.Close()",
+				"the writer is closed before its reader is taken: for a body spilled to disk Reader() must rewind the (now closed) descriptor and fails, so the reader is never obtained and the temporary file is never removed")
+		}
 		r.Check(!ReachableAvoiding(fn, b.newW, b.handler, isOnly(dfr), nil), "C15.R3", sn+": release registered before the wrapped handler runs", p.InstrPos(dfr),
 			"every path from the writer's creation to the handler passes the defer", "the handler can run (and panic, e.g. http.ErrAbortHandler of an aborted proxy relay) before the release of the response buffer is registered: the spill file is left behind")
 		r.Check(len(inLoop) == 0 || inLoop[dfr.Block()], "C15.R3", sn+": release registered in every iteration", p.InstrPos(dfr), "the defer is inside the retry loop", "the defer is outside the retry loop: discarded attempts are never released")
@@ -1315,6 +1334,39 @@ func c15DepFacts(p *Prog, r *Report) {
 	}
 	r.Check(okClose && okInit, "C15.R3", "multibuf (dependency): writerOnce.Close does not remove the temp file; only the clean-up closure handed to the reader does", "-",
 		"derived from the dependency's SSA: Close -/-> os.Remove, initFile's clean-up closure -> os.Remove", "the dependency's behaviour changed: re-derive the release obligation")
+}
+
+// c15ReaderNeedsOpenFile derives from the dependency's SSA that writerOnce.Close closes the very
+// descriptor (a field of type *os.File) that writerOnce.Reader operates on (Seek).
+func c15ReaderNeedsOpenFile(p *Prog) bool {
+	mp := p.DepPkg("github.com/mailgun/multibuf")
+	if mp == nil || mp.Type("writerOnce") == nil {
+		return false
+	}
+	wo, _ := mp.Type("writerOnce").Type().(*types.Named)
+	if wo == nil {
+		return false
+	}
+	fileField := func(fn *ssa.Function, method string) string {
+		if fn == nil {
+			return ""
+		}
+		for _, c := range Calls(fn) {
+			cc := c.Common()
+			if !ccIs(cc, "os", "File."+method) || len(cc.Args) == 0 {
+				continue
+			}
+			if u, ok := stripConv(cc.Args[0]).(*ssa.UnOp); ok {
+				if _, f, base, ok := fieldOf(u.X); ok && base == ssa.Value(fn.Params[0]) {
+					return f
+				}
+			}
+		}
+		return ""
+	}
+	fc := fileField(p.MethodOf(wo, "Close"), "Close")
+	fr := fileField(p.MethodOf(wo, "Reader"), "Seek")
+	return fc != "" && fc == fr
 }
 
 func mutantsC06() []Mutant {
